@@ -9,7 +9,7 @@ import re
 from extract import ExtractionError, strip_comments, blank_comments, match_brace
 
 TYPE_RX = (r"(?:typename\s+)?(?:SimTK::)?(?:"
-           r"RealP|Real|P|E|EPrecision|double|float|int|bool|unsigned|"
+           r"RealP|Real|P|E|T|EPrecision|long double|double|float|int|bool|unsigned|"
            r"(?:Unit)?Vec[2-6]?P?|Row[2-6]?P?|Mat[2-6][2-6]P?|SymMat[2-6][2-6]P?|SpatialVecP?|SpatialVec|SpatialRowP?|SpatialMatP?|"
            r"QuaternionP?|Quaternion_<P>|Rotation_<P>|RotationP|Rotation|InverseRotation_<P>|Transform_<P>|TransformP|Transform|"
            r"UnitVec<P,1>|UnitVec3P?|UnitVecP|"
@@ -83,7 +83,9 @@ class Translit:
         def cast(m):
             self.hit("scalar-cast-dropped", m.group(0)); return "("
         e = re.sub(r"\b(?:RealP|Real|P|E|double|float)\s*\((?=[^)])", cast, e)
-        e = re.sub(r"static_cast<\s*(?:RealP|Real|P|double|float)\s*>\s*\(", cast, e)
+        e = re.sub(r"static_cast<\s*(?:RealP|Real|P|double|float|T)\s*>\s*\(", cast, e)
+        if re.search(r"\(\s*int\s*\)", e):
+            self.hit("c-style-int-cast-dropped", e0); e = re.sub(r"\(\s*int\s*\)\s*", "", e)
         if "&&" in e or "||" in e:
             self.hit("logical-ops->AND/OR", e0); e = self.logic(e)
         e = re.sub(r"!(?!=)", " not ", e)
@@ -184,6 +186,41 @@ class Translit:
             if text.startswith("{"):
                 j = match_brace(blank_comments(text), 0)
                 out += self.stmts(text[1:j], ind); text = text[j + 1:]; continue
+            m = re.match(r"switch\s*\(", text)
+            if m:
+                op = text.index("("); cp = match_brace(blank_comments(text), op)
+                disc = self.expr(text[op + 1:cp])
+                rest = text[cp + 1:].lstrip()
+                if not rest.startswith("{"):
+                    raise ExtractionError("%s: switch without block" % self.name)
+                j = match_brace(blank_comments(rest), 0)
+                body = rest[1:j]; text = rest[j + 1:]
+                # split into case arms at top level
+                arms, b, depth, last, i = [], blank_comments(body), 0, None, 0
+                marks = []
+                for mm in re.finditer(r"\b(case\s+[^:]+|default)\s*:", b):
+                    # only depth-0 labels
+                    d = b[:mm.start()].count("{") - b[:mm.start()].count("}")
+                    if d == 0:
+                        marks.append(mm)
+                self.hit("switch->if/elif chain", "switch(%s) with %d arms" % (disc, len(marks)))
+                out.append(" " * ind + "_sw = %s" % disc)
+                first = True
+                for k, mm in enumerate(marks):
+                    arm = body[mm.end():marks[k + 1].start() if k + 1 < len(marks) else len(body)]
+                    label = mm.group(1)
+                    arm_lines = self.stmts(arm, ind + 4)
+                    arm_lines = [l for l in arm_lines if l.strip() != "break"]
+                    falls = not (arm_lines and re.match(r"\s*(return|raise)\b", arm_lines[-1])) and "break" not in arm and k + 1 < len(marks)
+                    if falls:
+                        raise ExtractionError("%s: switch arm '%s' falls through (not supported)" % (self.name, label))
+                    if label == "default":
+                        out.append(" " * ind + ("else:" if not first else "if True:"))
+                    else:
+                        out.append(" " * ind + ("if" if first else "elif") + " _sw == %s:" % self.expr(label[4:].strip()))
+                    out += arm_lines or [" " * (ind + 4) + "pass"]
+                    first = False
+                continue
             m = re.match(r"(if|for|while)\s*\(", text)
             if m:
                 kw = m.group(1)
@@ -282,7 +319,7 @@ class Translit:
         if st in ("continue", "break"):
             return [st]
         if re.match(r"(SimTK_ASSERT|SimTK_ERRCHK|SimTK_APIARGCHECK|SimTK_INDEXCHECK|SimTK_SIZECHECK|assert)\w*\s*\(", st):
-            self.dropped.append(dict(rule="debug-assert-dropped", text=st)); return []
+            self.dropped.append(dict(rule="assert/argument-check dropped (its condition is a precondition of the contract)", text=st)); return []
         m = DECL_RX.match(st)
         if m:
             ty = m.group(1)
